@@ -834,6 +834,12 @@ pub fn c15(c: &Collector, g: &mut Guard) {
     }
     c.count("bases_after_deccolm_resize_title", extra.len() as u64);
     bases.extend(extra);
+    // "every row is marked dirty" means something only from a set that lacks rows: every second
+    // base state starts from a cleared dirty set
+    for b in bases.iter_mut().step_by(2) {
+        b.screen.dirty.clear();
+        b.script.push(Op::ClearDirty);
+    }
     let depth = if c.thorough() { 2 } else { 1 };
     sweep(
         c,
@@ -1627,12 +1633,12 @@ pub fn c14(c: &Collector, g: &mut Guard) {
         |_| {
             let mut v = Vec::new();
             let mut pushes = String::new();
-            for i in 0..300u32 {
+            for i in 0..4100u32 {
                 pushes.push_str(&format!("\x1b[{};{}H\x1b[{}m\x1b7", 1 + i % 7, 1 + (i * 3) % 9, 30 + i % 8));
-                if ![0, 1, 2, 8, 16, 31, 32, 63, 64, 127, 128, 129, 255, 256, 299].contains(&i) {
+                if ![0, 1, 2, 8, 16, 31, 32, 63, 64, 127, 128, 129, 255, 256, 299, 1023, 1024, 1025, 4095, 4096, 4099].contains(&i) {
                     continue;
                 }
-                for k in [1u32, 2, 3, 8, 9, 16, 17, 32, 33, 40, 64, 65, 127, 128, 129, 130, 200, 256, 257, 300] {
+                for k in [1u32, 2, 3, 8, 9, 16, 17, 32, 33, 40, 64, 65, 127, 128, 129, 130, 200, 256, 257, 300, 1024, 1025, 1026, 4096, 4097, 4100] {
                     if k <= i + 1 {
                         let pops = "\x1b8".repeat(k as usize);
                         v.push(Op::Feed(vec![format!("{}\x1b[H\x1b[m{}", pushes, pops)], true));
@@ -2054,7 +2060,13 @@ pub fn c16(c: &Collector, g: &mut Guard) {
     let mut spec = broad_spec(c, gs.clone());
     spec.stacks = vec![0, 1];
     spec.cursors = CursorSel::All;
-    let bases = gen_bases(c, &spec);
+    let mut bases = gen_bases(c, &spec);
+    // "every row is marked dirty" means something only from a set that lacks rows
+    for b in bases.iter_mut().step_by(2) {
+        b.screen.dirty.clear();
+        b.script.push(Op::ClearDirty);
+    }
+    let bases = bases;
     sweep(
         c,
         &bases,
@@ -2271,8 +2283,44 @@ pub fn c16(c: &Collector, g: &mut Guard) {
             refine_all(c, "C16", "E2.deccolm", t, local);
         },
     );
+    // what the 132-column excursion left beyond the remembered width must not come back when the
+    // embedder widens the screen afterwards (RM ?3 goes through the same trimming as a resize)
+    for script in [
+        vec![Op::Sm(vec![3], true), Op::Cup(Some(1), Some(100)), Op::Draw("Z".into()), Op::Rm(vec![3], true), Op::Resize(None, Some(120)), Op::Resize(None, Some(140))],
+        vec![Op::Sgr(vec![44]), Op::Sm(vec![3], true), Op::Rm(vec![3], true), Op::Resize(None, Some(12)), Op::Resize(Some(5), Some(133))],
+        vec![Op::Feed(vec!["\x1b[?3h\x1b[2;132H\u{30a2}\x1b[7m\x1b[K\x1b[?3l".into()], true), Op::Resize(None, Some(11)), Op::Resize(None, Some(132)), Op::Resize(None, Some(200))],
+        vec![Op::Sm(vec![3], true), Op::Cup(Some(3), Some(11)), Op::Draw("hidden".into()), Op::Feed(vec!["\x1b[?3l".into()], true), Op::Draw("v".into()), Op::Sm(vec![3], true), Op::Resize(None, Some(20))],
+    ] {
+        if let Ok(scr) = build(10, 3, &[]) {
+            let b = Base { columns: 10, lines: 3, script: vec![], screen: scr };
+            crate::props::repeat_cycle(c, "C16", "E2.deccolm-then-grow", &b, &script, 1);
+        }
+    }
+    // histories without merging around scrolls and resizes (a private scratch frame or row cache
+    // that survives a shrink and is swapped back in by the next scroll)
+    history_tree_j(
+        c,
+        "C16",
+        (2, 3),
+        vec![
+            Op::Index,
+            Op::ReverseIndex,
+            Op::Resize(Some(2), None),
+            Op::Resize(Some(3), None),
+            Op::Resize(Some(4), None),
+            Op::Resize(None, Some(1)),
+            Op::Resize(None, Some(3)),
+            Op::Cup(Some(9), Some(1)),
+            Op::Cup(Some(1), Some(2)),
+            Op::Draw("k".into()),
+        ],
+        if c.thorough() { 6 } else { 5 },
+        &|_| false,
+    );
     c.bound("geometries", json!(gs));
     c.bound("bfs_depth", json!(depth));
+    g.need(c, "tree_judged");
+    g.need(c, "repeated_steps");
     g.need(c, "wide_deccolm_resizes");
     g.need(c, "huge_resizes");
     g.need(c, "large_geometry_transitions");
